@@ -1109,7 +1109,8 @@ def run(pid: str, tier: str, seed: int) -> int:
         (cov.get("fuzz") or {}).get("observations", 0)
     samples = (ge.get("samples") or [])[:3] + (ee.get("samples") or [])[:3]
     coverage = {"states": states, "transitions": trans, "traces_validated_against_impl": replayed,
-                "samples": samples, "exhaustive": "every stage list / AST of the stated bound (see graph.bound, expr.runs)",
+                "samples": samples, "exhaustive": True,
+                "exhaustive_scope": "every stage list / AST of the stated bound (see graph.bound, expr.runs); the random graphs and strings beyond it are samples",
                 "known_findings_hit": dict(rep.known_hits), **cov}
     evidence.write_evidence(pid, tier, seed, "model_checking", coverage, wall, violations=len(rep.violations),
                             assumptions=["`is` / `is not` are enumerated with a singleton constant on the right only (identity of "
